@@ -239,12 +239,25 @@ func AddStandardFilters(fd FilterDictionary) { //nolint: gocyclo
 	fd.AddFilter("truncatewords", func(s string, length func(int) int, ellipsis func(string) string) string {
 		el := ellipsis("...")
 		n := length(15)
-		re := regexp.MustCompile(fmt.Sprintf(`^(?:\s*\S+){%d}`, n))
-		m := re.FindString(s)
-		if m == "" {
+		// find the end of the nth word, keeping the original spacing before it
+		end, words := 0, 0
+		for words < n {
+			rest := strings.TrimLeftFunc(s[end:], unicode.IsSpace)
+			if rest == "" {
+				break
+			}
+			wordLen := strings.IndexFunc(rest, unicode.IsSpace)
+			if wordLen < 0 {
+				wordLen = len(rest)
+			}
+			end = len(s) - len(rest) + wordLen
+			words++
+		}
+		// nothing to cut off unless more words follow
+		if words == 0 || strings.TrimLeftFunc(s[end:], unicode.IsSpace) == "" {
 			return s
 		}
-		return m + el
+		return s[:end] + el
 	})
 	fd.AddFilter("upcase", func(s, suffix string) string {
 		return strings.ToUpper(s)
